@@ -148,9 +148,16 @@ Definition shared_names : ty :=
 Definition lim : ty := TNamed "Lim" (TStruct [("Hard", TPtr t_int32); ("Quota", TPtr plain); ("W", t_int32)]).
 Definition acc : ty := TNamed "Acc" (TStruct [("Limits", lim); ("Rate", TScalar SF64)]).
 Definition flat3 : ty := TNamed "Flat3" (TStruct [("In", TNamed "Flat2" (TStruct [("P", plain); ("U", TScalar (SInt KUint16))])); ("B", TScalar SBool)]).
+(* four more by-value levels above the same bottom: the nested struct field sits below an enclosing struct at depth >= 3 *)
+Definition wrap3 : ty :=
+  TNamed "Wrap3" (TStruct [("W", TNamed "Wrap2" (TStruct [("V", TNamed "Wrap1" (TStruct [("U", acc); ("PU", TPtr acc)])); ("N", t_int32)]))]).
+(* a by-value map entry that itself holds maps with pointer values, under the same and under another key type than the outer map *)
+Definition shelf : ty :=
+  TNamed "Shelf" (TStruct [("Boxes", TMap (TScalar (SInt KUint8)) (TPtr leaf)); ("Same", TMap t_int32 (TPtr leaf)); ("N", t_int32)]).
+Definition shelves : ty := TStruct [("Sh", TMap t_int32 shelf); ("N", t_int32)].
 Definition value_chain : ty :=
   TStruct [("Plan", acc); ("PPlan", TPtr acc); ("Plans", TSlice acc); ("PM", TMap t_string (TPtr acc)); ("F", flat3); ("N", t_int32);
-           ("FM", TMap (TScalar SF64) plain); ("FP", TMap (TScalar SF32) (TPtr acc))].
+           ("FM", TMap (TScalar SF64) plain); ("FP", TMap (TScalar SF32) (TPtr acc)); ("Q", wrap3)].
 (* exported field names that do not start with an ASCII letter (UTF-8: E-acute "lan", Cyrillic "Imya", O-umlaut "l") *)
 Definition u8 (l : list nat) : string := fold_right (fun n r => String (ascii_of_nat n) r) "" l.
 Definition unicode_names : ty :=
@@ -216,7 +223,7 @@ Definition multi : list ty :=
    kinds_struct (fun k => TSlice (TScalar k)) all_skinds;
    kinds_struct (fun k => TMap t_string (TScalar k)) all_skinds;
    kinds_struct (fun k => TMap (TScalar k) t_string) (filter (fun k => match k with SByte => false | _ => true end) all_skinds);
-   shared_names; value_chain; unicode_names; similar_names; nested_named].
+   shared_names; value_chain; unicode_names; similar_names; nested_named; shelves].
 
 Definition rep_shapes : list ty :=
   dedup_ty (shapes1 rep_skinds ++ shapes2 [SString; SInt KInt32] [SInt KInt32; SString]).
